@@ -470,7 +470,16 @@ def replay(r):
     start, end = (hi, lo) if p['mono'] in (-1, 'decreasing') else (lo, hi)
     if np.max(np.abs(outs[0] - start)) > 1e-4 or np.max(np.abs(outs[-1] - end)) > 1e-4:
       bad = True
-    return dict(reproduced=bool(bad), detail=dict(kernel=K.tolist(), assert_message=msg))
+    # equal heights / equal slopes, as documented for the two named initializers
+    shape_dev = 0.0
+    if p['init'] in ('equal_heights', 'equal_slopes') and p['nk'] > 2:
+      h = K[1:]
+      L = np.diff(np.array(kps))[:, None] if p['init'] == 'equal_slopes' else np.ones((p['nk'] - 1, 1))
+      slopes = h / L
+      shape_dev = float(np.max(np.abs(slopes - slopes[:1])))
+      if shape_dev > 1e-4 * max(1.0, float(np.max(np.abs(K)))):
+        bad = True
+    return dict(reproduced=bool(bad), detail=dict(kernel=K.tolist(), assert_message=msg, deviation_from_equal_heights_or_slopes=shape_dev))
   layer = _lattice_layer(p)
   orig = np.random.shuffle
   if rp['fn'] == 'lattice-random':
